@@ -58,13 +58,14 @@ Definition life_ok (want : trec) (l : tlife) : bool :=
   match l with TLife expired aslife => Bool.eqb expired (tr_expired want) && aslife end.
 
 (* issued_token_type names what the response holds, and that token is stored as decided *)
-Definition contained (want : trec) (issued : ttype) (access : xtok) (rt : sid) (rt_live : bool)
+Definition contained (pol : tepolicy) (want : trec) (issued : ttype) (access : xtok) (rt : sid) (rt_live : bool)
     (stored : option trec) : bool :=
   let at_ok := match access, stored with
                | XOpaque (AT _) sub, Some t => String.eqb sub (tr_sub want) && trec_eqb t want
-               (* a JWT access token also carries the actor the policy decided (act claim) *)
+               (* a JWT access token also carries the act claim the storage policy decided for the
+                  request's actor - the actor's subject, a mapped id, a chain, or none *)
                | XJwt (AT _) sub actor l, Some t =>
-                   String.eqb sub (tr_sub want) && String.eqb actor (tr_actor want) && trec_eqb t want
+                   String.eqb sub (tr_sub want) && String.eqb actor (decided_act pol true (tr_actor want)) && trec_eqb t want
                    && life_ok want l
                | _, _ => false
                end in
@@ -72,7 +73,8 @@ Definition contained (want : trec) (issued : ttype) (access : xtok) (rt : sid) (
   | TAccess => at_ok
   | TRefresh => at_ok && match rt with RT _ => rt_live | _ => false end
   | TId => match access with
-           | XIdTok sub azp l => String.eqb azp (tr_client want) && String.eqb sub (tr_sub want) && life_ok want l
+           | XIdTok sub azp actor l => String.eqb azp (tr_client want) && String.eqb sub (tr_sub want)
+                                       && String.eqb actor (decided_act pol false (tr_actor want)) && life_ok want l
            | _ => false
            end
   | _ => false
@@ -104,7 +106,7 @@ Definition check (cl : list client) (g : store) (o : op) (x : out) : bool :=
       client_ok cl c && subj_live false g styp subj && actor_live g actor
       && issuable (policy g) req && negb (string_in "veto" scopes)
       && strs_eqb sc (decided_scopes (policy g) scopes)
-      && contained (decided cl g c subj styp actor scopes aud) issued access rt rt_live stored
+      && contained (policy g) (decided cl g c subj styp actor scopes aud) issued access rt rt_live stored
   | Exchange _ c subj styp actor req scopes _, OErr st oauth =>
       is_error st && oauth && negb (promised cl g c subj styp actor req scopes)
   | Exchange _ _ _ _ _ _ _ _, _ => false
